@@ -93,7 +93,7 @@ func runC06(c *Ctx) error {
 		cases = append(cases, c06Case{Class: "timeout/" + src, Source: src, Label: "handler", Closers: 2, Handlers: 1, Msgs: 1, Slow: 500 * time.Millisecond, Timeout: 100 * time.Millisecond})
 	}
 	// random park-and-run programs
-	n := c.Pick(30, 500)
+	n := c.Pick(30, 3000)
 	for i := 0; i < n; i++ {
 		src := []string{"scripted", "gochannel"}[c.Rng.Intn(2)]
 		cases = append(cases, c06Case{Class: "random/" + src, Source: src, Label: c06Labels[c.Rng.Intn(len(c06Labels))], Second: c.Rng.Intn(3) == 0,
